@@ -192,7 +192,8 @@ _STR_PIECES = ["", "abc", "it's", 'say "hi"', "line1\nline2", "THE END", "END", 
                "back\\slash", "END\n", "\nEND\n", "{'a': 1}", "trailing space ", "#comment", "%s %d",
                "'''", '"""', "\\n", "a" * 70, "word " * 30, "SIZE =                   10", "\r\n"]
 _KEYS = ["date", "age", "END", "SIZE", "note", "survey", "n rows", "it's", "Key", "size", "nrows", "delim",
-         "dtype", "BLEND", "x", "long_key_name_to_force_wrapping_of_the_pretty_printer", "k2", "version"]
+         "dtype", "BLEND", "x", "long_key_name_to_force_wrapping_of_the_pretty_printer", "k2", "version",
+         " lead", "trail ", "", "new\nline", "quo'te", 'dq"', "tab\tkey", "Size", "THE END", "a.b", "1", "None"]
 
 
 def gen_value(r, depth=0):
